@@ -1,6 +1,6 @@
 \* the code as it is: the working directory is restored on every path.  MaxEdits = 3.
-CONSTANTS MaxEdits = 3  RestorePolicy = "deferred"
+CONSTANTS MaxEdits = 3  RestorePolicy = "deferred"  ConfigPolicy = "fresh"
 INIT Init
 NEXT Next
-INVARIANTS Converges AtHomeWhenIdle ExportSchedules
+INVARIANTS Converges AtHomeWhenIdle UnconfiguredUntouched ExportSchedules
 CHECK_DEADLOCK FALSE
